@@ -38,19 +38,19 @@ pub struct Case {
 
 pub struct C13;
 
-const WORDS: &[&str] = &[
+pub(crate) const WORDS: &[&str] = &[
     "a", "b", "ab", "A", "the", "cat", "eats", "fish", "ba", "x", "´x", "x´", "ﬁsh", "é", "e\u{301}", "中", "a.", "¨",
     // multi-code-point clusters that NFKC does not compose (grapheme index != code-point index)
     "👍🏽", "x\u{301}b", "🇩🇪a",
 ];
 
-const PLAIN_WORDS: &[&str] = &["a", "b", "ab", "the", "cat", "eats", "fish", "ba", "x", "A", "👍🏽", "x\u{301}b"];
+pub(crate) const PLAIN_WORDS: &[&str] = &["a", "b", "ab", "the", "cat", "eats", "fish", "ba", "x", "A", "👍🏽", "x\u{301}b"];
 
 fn sentence(max: usize) -> BoxedStrategy<Vec<String>> {
     proptest::collection::vec(select(WORDS).prop_map(str::to_string), 0..=max).boxed()
 }
 
-fn corrupt(words: &[String], ops: &[(u8, u16, String)]) -> Vec<String> {
+pub(crate) fn corrupt(words: &[String], ops: &[(u8, u16, String)]) -> Vec<String> {
     let mut v = words.to_vec();
     for (k, pos, w) in ops {
         match k % 6 {
@@ -88,7 +88,7 @@ fn corrupt(words: &[String], ops: &[(u8, u16, String)]) -> Vec<String> {
     v
 }
 
-fn join(words: &[String], seps: &[String]) -> String {
+pub(crate) fn join(words: &[String], seps: &[String]) -> String {
     let mut s = String::new();
     for (i, w) in words.iter().enumerate() {
         if i > 0 {
@@ -129,7 +129,7 @@ fn triple() -> BoxedStrategy<(String, String, String)> {
         .boxed()
 }
 
-const WS_ALPHA: &[&str] = &["a", "b", "c", "ä", "中", "x", "é"];
+pub(crate) const WS_ALPHA: &[&str] = &["a", "b", "c", "ä", "中", "x", "é"];
 
 fn ws_seq() -> BoxedStrategy<(Vec<String>, Vec<bool>, Vec<bool>, Vec<bool>)> {
     (0usize..=8)
@@ -217,6 +217,11 @@ fn words(s: &str) -> Vec<String> {
 impl Prop for C13 {
     type Case = Case;
     const ID: &'static str = "C13";
+    const FUZZ_TARGET: Option<&'static str> = Some("metrics");
+    const FUZZ_RUNS: u64 = 250000;
+    fn fuzz_decode(bytes: &[u8]) -> Option<Case> {
+        crate::fuzzdec::c13(bytes)
+    }
     const RULE: &'static str = "four generated families: (a) spelling triples built from a target word sequence with word-level corruptions (delete/add/merge/split/replace/swap words, empty prediction, NFKC-space characters, unclean separators), prediction = target / input / further corruption; (b) whitespace triples = three independent space placements of one character sequence (all valid variants), all three modes; (c) arbitrary Unicode triples (totality + range only); (d) label/prediction vectors and string lists for accuracy, binary F1, mean (normalised) edit distance; x beta in {0.5,1,2} x sequence_averaged x use_graphemes. Oracles: range, calibration laws via reference LCS, reference whitespace-operation sets, aggregation laws, defining formulas with the C12 reference distance. Non-trivial: a triple with prediction != input != target in which one text is empty or the word counts differ (a), >= 2 sequences with both an insertion and a deletion (b). Distinct = distinct serialised case.";
     const ESSENTIAL: &'static [&'static str] = &["spelling", "whitespace", "wild", "simple", "empty_pred", "empty_input", "empty_list", "nfkc_space", "pred_eq_target", "pred_eq_input", "merged_or_split", "break_correct"];
 
